@@ -349,5 +349,8 @@ class Machine:
 
     def end_of_run(self):
         """End-of-run oracles (isolation equivalence etc.) are attached by oracle mixins."""
-        for hook in getattr(self, "_end_hooks", []):
-            hook()
+        self.cur_step = {"op": "end_of_run", "i": self.step_no + 1}
+        if "O10" in self.fam:
+            self.isolation_oracle()
+        if "O14" in self.fam and hasattr(self, "rejects_deleted_oracle"):
+            self.rejects_deleted_oracle()
